@@ -118,7 +118,7 @@ CLAIMED["C19"] = dict(engine="filersim", design="§6 C19; Part II §A",
    technique=TECH + "paginated enumerations interleaved with fake-clock TTL expiry and restarts on a real Filer, on leveldb/leveldb2/leveldb3 and on a store that forces the generic prefix-filter path; every page compared with the page the statement defines over the model",
    text="Partial claim: request shapes (start, inclusive, limit, prefix / pattern / exclusion) are sampled, not enumerated. Simulation decides the time- and store-dependent part: entries expire on the fake clock between pages while still physically stored, the filer restarts between pages, and the listing runs through each embedded store's native prefixed listing or through FilerStoreWrapper's generic filter; each page must be exactly the matching live children in order, without duplicates, at most limit, not shortened by expired entries, and following the last name enumerates every match once; an enumeration that does not terminate is a violation.",
    note=FILERNOTE + " Expiry during one page call is not reachable (no yield point inside a listing).")
-CLAIMED["C20"] = dict(engine="filersim", design="§6 C20; Part II §A, §F",
+CLAIMED["C20"] = dict(engine="filersim", design="§6 C20; Part II §A, §G",
    technique=TECH + "namespace histories with shared chunks, manifests and hard links on a real Filer; chunk deletions observed at the deletion queue and as BatchDelete gRPC requests (real client over bufconn) at a stub volume server, incl. the filer's own deletion loop on the fake clock; reference-count oracle over what is actually stored",
    text="Component variant: no data chunks exist, file ids are opaque; what is decided is which file ids the filer hands to deletion. After every create, overwrite, update, append, hard link, rename, delete and recursive delete (with clean restarts and injected store failures) no chunk reachable from a live entry (directly, via a manifest, via a hard-link record) has been queued or named in a BatchDelete, and every chunk dropped by an operation that deletes data has been.",
    note=FILERNOTE + " That the volume server really deletes what BatchDelete names is the cluster engine's business (C40).")
